@@ -20,6 +20,7 @@ G('tz.__gps_offs', 'tzraw', '__gps_offs', ['C14'], ins=[('long long', 'in_t')], 
   unwind=40, timeout=600, sweep={'in_t': '(long long)(RND % 8000000000ULL) - 1000000000LL'})
 G('tz.L_leaptab', 'tzraw', 'L_leaptab', ['C14'], body='\tL_leaptab();', direct=True, must=['L_leaptab'], native=False, reach=False, unwind=40)
 
+G('tz.zif_utc_time', 'tzraw', 'zif_utc_time', TZ, body=ZB + '\tzif_utc_time(z, in_t);', replace=['__offs'], native=False, timeout=1200, unwind=12)
 # C19: the loader, bounded: all file images of <= ZIF_IMG_MAX bytes
 TU('tzraw-loader', 'lib/tzraw.c', LIB_CFLAGS + ['-Dopen(f,...)=verif_open(f)', '-Dfstat(fd,st)=verif_fstat(fd,st)', '-Dmmap(a,len,...)=verif_mmap(len)',
                                                  '-Dmunmap(p,len)=verif_munmap(p,len)', '-Dclose(fd)=verif_close(fd)'],
